@@ -317,6 +317,31 @@ fn slerps(d: &mut Drv) {
     d.call("slerp", || arg("trait/ref", 0), || qv(&<&Quaternion<Q> as Slerp<Q>>::slerp_unclamped(&pf, &pt, t)));
     d.call("slerp", || arg("inherent", 1), || qv(&Quaternion::slerp(pf, pt, t)));
     d.call("slerp", || arg("trait", 1), || qv(&<Quaternion<Q> as Slerp<Q>>::slerp(pf, pt, t)));
+    // floats: the result of slerp / nlerp between unit quaternions is a unit quaternion - also for orientations that are a
+    // fraction of a degree to a few degrees apart (where implementations switch formulas) and for factors outside [0,1];
+    // logged: (|q|^2 - 1) * 2^44 (f64), * 2^20 (f32)
+    {
+        let a = [d.rng.gen_range(-5..=5) as f64, d.rng.gen_range(-5..=5) as f64, d.rng.gen_range(-5..=5) as f64, d.rng.gen_range(1..=5) as f64];
+        let ax = { let v = [d.rng.gen_range(-4..=4) as f64, d.rng.gen_range(-4..=4) as f64, d.rng.gen_range(1..=4) as f64]; let l = (v[0] * v[0] + v[1] * v[1] + v[2] * v[2]).sqrt(); [v[0] / l, v[1] / l, v[2] / l] };
+        let la = (a[0] * a[0] + a[1] * a[1] + a[2] * a[2] + a[3] * a[3]).sqrt();
+        let f64q = Quaternion::from_xyzw(a[0] / la, a[1] / la, a[2] / la, a[3] / la);
+        for (di, delta) in [2e-5f64, 1e-4, 3e-4, 2e-3, 0.01, 0.03, 0.05, 0.3, 1.0, 2.5].iter().enumerate() {
+            let t = [0.25f64, 0.5, 0.7, 1.5, -0.5][(di + d.pick(5)) % 5];
+            let (sn, cs) = ((delta / 2.0).sin(), (delta / 2.0).cos());
+            let r = Quaternion::from_xyzw(ax[0] * sn, ax[1] * sn, ax[2] * sn, cs);
+            let to = (f64q * r).normalized();
+            let n2 = |q: Quaternion<f64>| q.x * q.x + q.y * q.y + q.z * q.z + q.w * q.w;
+            let e = |x: f64, k: f64| if x.is_finite() { (x * k).round() as i64 } else { 1i64 << 50 };
+            let rec = |ty: &str, how: &str| json!({"ty": ty, "how": how, "delta": di as i64, "t": (t * 100.0) as i64});
+            d.call("slerp_f", || rec("f64", "slerp_unclamped"), || json!(e(n2(Quaternion::slerp_unclamped(f64q, to, t)) - 1.0, 17592186044416.0)));
+            d.call("slerp_f", || rec("f64", "nlerp_unclamped"), || json!(e(n2(<Quaternion<f64> as Lerp<f64>>::lerp_unclamped(f64q, to, t)) - 1.0, 17592186044416.0)));
+            let c32 = |q: Quaternion<f64>| Quaternion::from_xyzw(q.x as f32, q.y as f32, q.z as f32, q.w as f32).normalized();
+            let (f32q, to32, t32) = (c32(f64q), c32(to), t as f32);
+            let n2f = |q: Quaternion<f32>| { let (x, y, z, w) = (q.x as f64, q.y as f64, q.z as f64, q.w as f64); x * x + y * y + z * z + w * w };
+            d.call("slerp_f", || rec("f32", "slerp_unclamped"), || json!(e(n2f(Quaternion::slerp_unclamped(f32q, to32, t32)) - 1.0, 1048576.0)));
+            d.call("slerp_f", || rec("f32", "nlerp_unclamped"), || json!(e(n2f(<Quaternion<f32> as Lerp<f32>>::lerp_unclamped(f32q, to32, t32)) - 1.0, 1048576.0)));
+        }
+    }
     // Transform: positions and scales lerp, orientation slerps
     let (pa, pb): (Vec<Q>, Vec<Q>) = (d.vecn(3), d.vecn(3));
     let (sa, sb): (Vec<Q>, Vec<Q>) = (d.vecn(3), d.vecn(3));
